@@ -1214,6 +1214,20 @@ STRING_SLOTS = {
 }
 
 
+# character buffers that a constructor which is not a slot pre-allocator must fill itself (confirmed by reading: the record is
+# live as soon as the constructor returns)
+CHARBUF_AT_CONSTRUCTION = {("msa_seq", "name"), ("msa_seq", "seq")}
+
+
+def _array_bytes(ty):
+    import re as _re
+    m = _re.match(r"^(?:const )?([a-z _]+?)\s*\[(\d+)\]$", ty)
+    w = {"char": 1, "signed char": 1, "unsigned char": 1, "short": 2, "int": 4, "unsigned int": 4, "float": 4, "double": 8, "long": 8}
+    if not m or m.group(1).strip() not in w:
+        return None
+    return w[m.group(1).strip()] * int(m.group(2))
+
+
 def constructors(prog):
     out = {}
     for F in prog.lib_functions():
@@ -1257,6 +1271,13 @@ def r05c(ck, prog):
             S = E.of_stmt(F, F.body, {tgt.d["did"]: ()})
             written = {p[0] for p in S.writes if p}
             pwritten = {p[0] for p in S.pwrites if p}
+            for c in F.body.calls("memset"):
+                d = c.args[0].strip(casts=True)
+                if d.k == "MemberExpr" and d.d.get("rec") == T and len(c.args) == 3 and c.args[2].cv is not None:
+                    fty = next((f["ty"] for f in rec["fields"] if f["name"] == d.d["field"]), "")
+                    nb = _array_bytes(fty)
+                    if nb is not None and c.args[2].cv >= nb:
+                        written.add(d.d["field"])          # the whole array is filled
             written_by.setdefault(T, {})[F.name] = written
             where = site(prog, call, "new %s" % T)
             missing = [f["name"] for f in rec["fields"] if f["name"] not in written and (T, f["name"]) in reads]
@@ -1289,6 +1310,12 @@ def r05c(ck, prog):
                     continue
                 if (F.name, f["name"]) in STRING_SLOTS:
                     ck.info("R05c", "%s allocates %s.%s without writing it: %s" % (F.name, T, f["name"], STRING_SLOTS[(F.name, f["name"])]))
+                    continue
+                if (T, f["name"]) not in CHARBUF_AT_CONSTRUCTION:
+                    # a buffer whose producer fills it before use (in_line.line, out_line.line): whether every use is preceded
+                    # by a write is a path question this flow-insensitive clause does not decide
+                    ck.info("R05c", "%s allocates %s.%s without writing it: not one of the buffers confirmed to be filled at construction; "
+                                    "write-before-use is not decided here" % (F.name, T, f["name"]))
                     continue
                 ck.violation("R05c", "R05c/%s/%s-contents" % (F.name, f["name"]), where,
                              "%s allocates the character buffer %s.%s but never writes it; string consumers (%s) read whatever "
@@ -1844,9 +1871,16 @@ def r05s(ck, prog):
     from ..affine import lin, Lin, single_defs, loop_range, alloc_sites
     n = 0
     for F in prog.lib_functions():
-        allocs = [(t, sz) for t, sz, c in alloc_sites(F) if t.k == "MemberExpr" and t.d.get("field") == "gaps" and t.d.get("rec") == "msa_seq"]
-        if not allocs:
+        allocs3 = [(t, sz, c) for t, sz, c in alloc_sites(F) if t.k == "MemberExpr" and t.d.get("field") == "gaps" and t.d.get("rec") == "msa_seq"]
+        if not allocs3:
             continue
+        if all(c.callee == "calloc" for _, _, c in allocs3):
+            n += 1
+            ck.inst("R05s", site(prog, allocs3[0][0], "gaps"), "%s allocates gaps with calloc: every counter starts at zero" % F.name, prog.config)
+            continue
+        if any(c.callee == "calloc" for _, _, c in allocs3):
+            raise AnalysisBroken("R05s: %s mixes calloc and malloc/realloc for msa_seq.gaps" % F.name)
+        allocs = [(t, sz) for t, sz, c in allocs3]
         subst = single_defs(F)
         es = None
         for t, sz in allocs:
@@ -1865,6 +1899,24 @@ def r05s(ck, prog):
                     if rng is None:
                         raise AnalysisBroken("R05s: the loop zeroing msa_seq.gaps in %s is not a recognised counting loop" % F.name)
                     his.append((rng, a))
+        for c in F.body.calls("memset"):
+            if len(c.args) != 3 or const_value(c.args[1]) != 0:
+                continue
+            d = c.args[0].strip(casts=True)
+            off = Lin(0)
+            while d.k == "BinaryOperator" and d.d["op"] == "+":
+                o = lin(d.kids[1], subst)
+                if o is None:
+                    break
+                off = off.add(o)
+                d = d.kids[0].strip(casts=True)
+            if not (d.k == "MemberExpr" and d.d.get("field") == "gaps" and d.d.get("rec") == "msa_seq"):
+                continue
+            L = lin(c.args[2], subst)
+            szs = [x.cv for x in c.args[2].walk() if x.k == "UnaryExprOrTypeTraitExpr" and x.cv]
+            if L is None or len(set(szs)) != 1 or L.div(szs[0]) is None:
+                raise AnalysisBroken("R05s: the memset that clears msa_seq.gaps in %s has a size that is not affine" % F.name)
+            his.append((("memset", off, off.add(L.div(szs[0]))), c))
         n += 1
         where = site(prog, allocs[0][0], "gaps")
         if not his:
@@ -1929,4 +1981,4 @@ def r05t(ck, prog):
                                      "va_copy in between: the second callee reads indeterminate arguments (wild %%s pointer)" % (
                                          F.name, name, u2.callee, u.callee, u.line), prog.config)
                         break
-    ck.floor("R05t", n, 3 if "controls" in prog.repo else 6, "va_list variables")
+    ck.floor("R05t", n, 3, "va_list variables")
